@@ -81,7 +81,8 @@ def keyEq (a b : PyVal) : Bool :=
   | some (i, _), some (j, _) => i == j
   | _, _ =>
     match a, b with
-    | .scalar (.float r none), .scalar (.float r' none) => floatReprEq r r'
+    -- PyYAML builds every NaN as the one object `SafeConstructor.nan_value`: equal as a key by identity
+    | .scalar (.float r none), .scalar (.float r' none) => (r == "nan" && r' == "nan") || floatReprEq r r'
     | .userStr _ s, .scalar (.str s') => s == s'
     | .scalar (.str s), .userStr _ s' => s == s'
     | .userStr _ s, .userStr _ s' => s == s'
